@@ -622,7 +622,9 @@ Proof.
     assert (Hne' : rev (y :: rd) <> []).
     { cbn [rev]. intros He. apply app_eq_nil in He. destruct He as [_ He]. discriminate. }
     change (rev (x :: y :: rd)) with (rev (y :: rd) ++ [x]).
-    rewrite (path_dir_join (rev (y :: rd)) x Hne' Hrev' Hx2).
+    assert (Hpd : path_dir (join (rev (y :: rd) ++ [x])) = join (rev (y :: rd)))
+      by (apply path_dir_join; assumption).
+    rewrite Hpd.
     destruct (join_not_special (rev (y :: rd)) Hne' Hrev') as [Hd' _].
     apply str_eqb_neq in Hd'. rewrite Hd'.
     cbn [closest_aux]. destruct (existsb (str_eqb (join (rev (y :: rd)))) pkgs); [reflexivity|].
@@ -651,4 +653,287 @@ Proof.
   cbn [tl]. rewrite Hs at 2. apply owner_loop_closest.
   - rewrite <- Hrev. apply Forall_rev. exact Hwf.
   - pose proof (join_length segs Hwf) as Hl. rewrite <- (rev_length segs), Hrev in Hl. cbn [length] in Hl. lia.
+Qed.
+
+Definition wf_segb (x : str) : bool := negb (str_eqb x []) && negb (mem slash x) && negb (str_eqb x (s ".")).
+
+Lemma wf_segb_ok x : wf_segb x = true -> wf_seg x.
+Proof.
+  unfold wf_segb, wf_seg. intros H. apply andb_true_iff in H. destruct H as [H H3].
+  apply andb_true_iff in H. destruct H as [H1 H2].
+  apply negb_true_iff in H1, H2, H3. apply str_eqb_neq in H1, H3. apply mem_false in H2.
+  repeat split; assumption.
+Qed.
+
+Lemma Forall_wf_segb segs : forallb wf_segb segs = true -> Forall wf_seg segs.
+Proof.
+  intros H. apply Forall_forall. intros x Hx. apply wf_segb_ok.
+  rewrite forallb_forall in H. apply H. exact Hx.
+Qed.
+
+Lemma join_rel segs : segs <> [] -> Forall wf_seg segs -> hd_error (join segs) <> Some slash.
+Proof.
+  intros Hne Hwf. destruct segs as [|x rest]; [exfalso; apply Hne; reflexivity|].
+  inversion Hwf as [|? ? [Hx1 [Hx2 _]] _]; subst.
+  destruct x as [|c x']; [exfalso; apply Hx1; reflexivity|].
+  assert (Hc : c <> slash) by (intros Heq; apply Hx2; left; exact Heq).
+  destruct rest; cbn [join app hd_error]; intros Heq; inversion Heq; subst; apply Hc; reflexivity.
+Qed.
+
+(* ------------------------------------------------------------------------------------------ *)
+(* the property, over the model *)
+
+(* t consumes the repository file f: one of its sources / data entries is f or a directory above f *)
+Definition consumes (t : target) (f : str) : Prop :=
+  exists p, In p (t_inputs t) /\ file_matches (t_pkg t) p f.
+
+(* f is a repository-relative path (given by its segments) and the package of the host target t is the
+   closest enclosing package of f - plz refuses sources and data that belong to another package
+   (BuildTarget.CheckTargetOwnsBuildInputs) *)
+Definition owned (g : graph) (t : target) (f : str) : Prop :=
+  t_sub t = false
+  /\ exists segs, segs <> [] /\ Forall wf_seg segs /\ f = join segs /\ closest (g_pkgs g) segs = Some (t_pkg t).
+
+Definition direct (g : graph) (files : list str) (t : target) : Prop :=
+  In t (g_targets g) /\ exists f, In f files /\ consumes t f /\ owned g t f.
+
+(* u depends on the target labelled l *)
+Definition depends (subincludes : bool) (g : graph) (u : target) (l : label) : Prop :=
+  (* a declared dependency, resolved through require/provide as the build resolves it *)
+  (exists d t2, In d (t_deps u) /\ find g d = Some t2 /\ In l (provide_for t2 u))
+  (* the targets of a subrepo depend on the target that defines the subrepo *)
+  \/ (t_sub u = true /\ t_subtarget u = Some l)
+  (* the targets of a package depend on what its BUILD file subincludes (only when no `before` graph tells
+     whether their definition changed) *)
+  \/ (subincludes = true /\ t_sub u = false /\ In (t_pkg u, l) (g_subincludes g)).
+
+(* everything that transitively depends on a base target, over the edge relation E *)
+Inductive affected (g : graph) (E : target -> label -> Prop) (base : label -> Prop) : label -> Prop :=
+| aff_base l : base l -> affected g E base l
+| aff_step u l : affected g E base l -> In u (g_targets g) -> E u l -> affected g E base (t_id u).
+
+Lemma direct_changed g files ch0 t :
+  direct g files t -> In (t_id t) (changed_by_files g files ch0).
+Proof.
+  intros [Hin [f [Hf [[p [Hp Hm]] [Hsub [segs [Hne [Hwf [Hj Hc]]]]]]]]].
+  apply (changed_by_files_hit g files ch0 f (t_pkg t) t Hf).
+  - subst f. rewrite (owner_closest g segs Hne Hwf). exact Hc.
+  - apply pkg_targets_In. repeat split; assumption.
+  - apply (has_abs_source_complete t p f Hp Hm). subst f. apply join_rel; assumption.
+Qed.
+
+Lemma affected_code_cases g incsub ch (base : label -> Prop) :
+  (forall l, base l -> In l ch) ->
+  forall x, affected g (code_dep g incsub) base x ->
+  reach g incsub ch x /\ (base x \/ exists l, reach g incsub ch l /\ In x (revdeps_of g incsub l)).
+Proof.
+  intros Hbase x Ha. induction Ha as [l Hl | u l _ [IHr _] Hu He].
+  - split; [apply reach_base, Hbase, Hl | left; exact Hl].
+  - assert (Hin : In (t_id u) (revdeps_of g incsub l)).
+    { apply revdeps_of_In. exists u. repeat split; assumption. }
+    split; [apply (reach_step g incsub ch l _ IHr Hin)|]. right. exists l. split; assumption.
+Qed.
+
+(* the general theorem about changedTargets: for every graph, file list, initial changed set, level and flag *)
+Theorem changed_targets_complete g files ch0 level incsub :
+  exists rep, changed_targets g files ch0 level incsub = Some rep
+    /\ (forall l, In l ch0 -> shown g incsub l = true -> In l rep)
+    /\ (forall t, direct g files t -> shown g incsub (t_id t) = true -> In (t_id t) rep)
+    /\ (level = (-1)%Z ->
+        forall x, affected g (code_dep g incsub) (fun l => In l ch0 \/ exists t, direct g files t /\ t_id t = l) x ->
+                  shown g incsub x = true -> In x rep).
+Proof.
+  destruct (changed_targets_spec g files ch0 level incsub) as [rep [Hrep [H1 H2]]].
+  exists rep. split; [exact Hrep|]. split; [|split].
+  - intros l Hl Hs. apply H1; [apply changed_by_files_mono; exact Hl | exact Hs].
+  - intros t Ht Hs. apply H1; [apply direct_changed; exact Ht | exact Hs].
+  - intros Hlev x Ha Hs.
+    assert (Hbase : forall l, (In l ch0 \/ exists t, direct g files t /\ t_id t = l) ->
+                              In l (changed_by_files g files ch0)).
+    { intros l [Hl | [t [Ht Hid]]]; [apply changed_by_files_mono; exact Hl | subst l; apply direct_changed; exact Ht]. }
+    destruct (affected_code_cases g incsub (changed_by_files g files ch0) _ Hbase x Ha) as [_ [Hb | [l [Hr Hx]]]].
+    + apply H1; [apply Hbase; exact Hb | exact Hs].
+    + apply (H2 Hlev l x Hr Hx Hs).
+Qed.
+
+(* the shapes on which the unchanged code misses an affected target *)
+Definition defect_class (subincludes : bool) (g : graph) (incsub : bool) : option N :=
+  if negb incsub && existsb (fun t => t_sub t && match t_subtarget t with Some _ => true | None => false end) (g_targets g)
+  then Some 1%N   (* subrepo-edge-needs-include-subrepos *)
+  else if subincludes && match g_subincludes g with [] => false | _ => true end
+  then Some 2%N   (* subincluding-package-not-followed *)
+  else None.
+
+Lemma depends_code_dep sub g incsub u l :
+  defect_class sub g incsub = None -> In u (g_targets g) -> depends sub g u l -> code_dep g incsub u l.
+Proof.
+  unfold defect_class. intros Hc Hu [Hd | [[Hs Ht] | [Hsub [Hs Hi]]]].
+  - left. exact Hd.
+  - right. destruct incsub; [repeat split; assumption|]. cbn [negb andb] in Hc.
+    replace (existsb _ (g_targets g)) with true in Hc; [discriminate|].
+    symmetry. apply existsb_exists. exists u. split; [exact Hu|]. rewrite Hs, Ht. reflexivity.
+  - exfalso. subst sub. destruct (negb incsub && _); [discriminate|].
+    destruct (g_subincludes g); [destruct Hi | discriminate].
+Qed.
+
+Lemma affected_mono g (E E' : target -> label -> Prop) base x :
+  (forall u l, In u (g_targets g) -> E u l -> E' u l) -> affected g E base x -> affected g E' base x.
+Proof.
+  intros HE Ha. induction Ha as [l Hl | u l _ IH Hu He]; [apply aff_base; exact Hl|].
+  apply (aff_step g E' base u l IH Hu). apply HE; assumption.
+Qed.
+
+Lemma affected_base_mono g E (base base' : label -> Prop) x :
+  (forall l, base l -> base' l) -> affected g E base x -> affected g E base' x.
+Proof.
+  intros Hb Ha. induction Ha as [l Hl | u l _ IH Hu He]; [apply aff_base, Hb, Hl|].
+  apply (aff_step g E base' u l IH Hu He).
+Qed.
+
+(* "rep misses nothing": every base target and, with level -1, everything that transitively depends on one
+   is in rep unless the include/exclude labels or the subrepo filter hide it *)
+Definition complete (g : graph) (incsub : bool) (level : Z) (E : target -> label -> Prop)
+           (base : label -> Prop) (rep : list label) : Prop :=
+  (forall l, base l -> shown g incsub l = true -> In l rep)
+  /\ (level = (-1)%Z -> forall x, affected g E base x -> shown g incsub x = true -> In x rep).
+
+Definition base_files (g : graph) (files : list str) : label -> Prop :=
+  fun l => exists t, direct g files t /\ t_id t = l.
+
+Definition base_diff (cfg : bool) (before after : graph) (files : list str) : label -> Prop :=
+  fun l => (exists a, In a (g_targets after) /\ def_changed cfg before a /\ t_id a = l) \/ base_files after files l.
+
+Definition files_claim (E : graph -> bool -> target -> label -> Prop) : Prop :=
+  forall g files level incsub,
+    exists rep, changes g files level incsub = Some rep
+                /\ complete g incsub level (E g incsub) (base_files g files) rep.
+
+Definition diff_claim (E : graph -> bool -> target -> label -> Prop) : Prop :=
+  forall cfg before after files level incsub,
+    exists rep, diff_changes cfg before after files level incsub = Some rep
+                /\ complete after incsub level (E after incsub) (base_diff cfg before after files) rep.
+
+Lemma changes_complete E g files level incsub :
+  (forall u l, In u (g_targets g) -> E u l -> code_dep g incsub u l) ->
+  exists rep, changes g files level incsub = Some rep /\ complete g incsub level E (base_files g files) rep.
+Proof.
+  intros HE. unfold changes.
+  destruct (changed_targets_complete g files [] level incsub) as [rep [Hrep [_ [H2 H3]]]].
+  exists rep. split; [exact Hrep|]. split.
+  - intros l [t [Ht Hid]] Hs. subst l. apply H2; assumption.
+  - intros Hlev x Ha Hs. apply (H3 Hlev x); [|exact Hs].
+    apply (affected_mono g E _ _ x HE). apply (affected_base_mono g E (base_files g files)); [|exact Ha].
+    intros l Hl. right. exact Hl.
+Qed.
+
+Lemma diff_complete E cfg before after files level incsub :
+  (forall u l, In u (g_targets after) -> E u l -> code_dep after incsub u l) ->
+  exists rep, diff_changes cfg before after files level incsub = Some rep
+              /\ complete after incsub level E (base_diff cfg before after files) rep.
+Proof.
+  intros HE. unfold diff_changes.
+  destruct (changed_targets_complete after files (diff_graphs cfg before after) level incsub) as [rep [Hrep [H1 [H2 H3]]]].
+  assert (Hb : forall l, base_diff cfg before after files l ->
+                         In l (diff_graphs cfg before after) \/ exists t, direct after files t /\ t_id t = l).
+  { intros l [[a [Ha [Hd Hid]]] | Hl]; [left; subst l; apply diff_graphs_complete; assumption | right; exact Hl]. }
+  exists rep. split; [exact Hrep|]. split.
+  - intros l Hl Hs. destruct (Hb l Hl) as [Hin | [t [Ht Hid]]]; [apply H1; assumption | subst l; apply H2; assumption].
+  - intros Hlev x Ha Hs. apply (H3 Hlev x); [|exact Hs].
+    apply (affected_mono g := after) (E := E); [exact HE|].
+    apply (affected_base_mono after E (base_diff cfg before after files)); [exact Hb | exact Ha].
+Qed.
+
+Lemma files_claim_code : files_claim code_dep.
+Proof. intros g files level incsub. apply changes_complete. intros u l _ H. exact H. Qed.
+
+Lemma diff_claim_code : diff_claim code_dep.
+Proof. intros cfg before after files level incsub. apply diff_complete. intros u l _ H. exact H. Qed.
+
+Lemma files_claim_class g files level incsub :
+  defect_class true g incsub = None ->
+  exists rep, changes g files level incsub = Some rep
+              /\ complete g incsub level (depends true g) (base_files g files) rep.
+Proof. intros Hc. apply changes_complete. intros u l Hu H. exact (depends_code_dep true g incsub u l Hc Hu H). Qed.
+
+Lemma diff_claim_class cfg before after files level incsub :
+  defect_class false after incsub = None ->
+  exists rep, diff_changes cfg before after files level incsub = Some rep
+              /\ complete after incsub level (depends false after) (base_diff cfg before after files) rep.
+Proof. intros Hc. apply diff_complete. intros u l Hu H. exact (depends_code_dep false after incsub u l Hc Hu H). Qed.
+
+(* ---- witnesses of the two defect classes ---- *)
+
+(* //defs:defs (rules.build_defs), //a:lib in a package that subincludes //defs:defs *)
+Definition w_defs : target := mkT 0 (s "defs") false None [s "rules.build_defs"] [] [] [] [] [] true 1 1.
+Definition w_lib : target := mkT 1 (s "a") false None [s "lib.go"] [] [] [] [] [] true 2 1.
+Definition w_incl : graph := mkG [w_defs; w_lib] [s "a"; s "defs"] [(s "a", 0%N)].
+
+Lemma w_incl_direct : direct w_incl [s "defs/rules.build_defs"] w_defs.
+Proof.
+  split; [left; reflexivity|]. exists (s "defs/rules.build_defs"). split; [left; reflexivity|]. split.
+  - exists (s "rules.build_defs"). split; [left; reflexivity | left; reflexivity].
+  - split; [reflexivity|]. exists [s "defs"; s "rules.build_defs"].
+    split; [discriminate|]. split; [apply Forall_wf_segb; reflexivity|]. split; reflexivity.
+Qed.
+
+Lemma files_claim_refuted : ~ files_claim (fun g _ => depends true g).
+Proof.
+  intros H. destruct (H w_incl [s "defs/rules.build_defs"] (-1)%Z false) as [rep [Hrep [_ Hcl]]].
+  vm_compute in Hrep. inversion Hrep; subst rep.
+  assert (Hin : In 1%N [0%N]).
+  { apply Hcl; [reflexivity | | reflexivity].
+    change 1%N with (t_id w_lib). apply (aff_step _ _ _ w_lib 0%N).
+    - apply aff_base. exists w_defs. split; [exact w_incl_direct | reflexivity].
+    - right. left. reflexivity.
+    - right. right. split; [reflexivity|]. split; [reflexivity | left; reflexivity]. }
+  destruct Hin as [Hin | []]. discriminate.
+Qed.
+
+(* //third_party:sr defines the subrepo sr, ///sr//x:lib lives in it, //a:app depends on ///sr//x:lib *)
+Definition w_sr : target := mkT 2 (s "third_party") false None [s "sr.patch"] [] [] [] [] [] true 1 1.
+Definition w_srlib : target := mkT 0 (s "x") true (Some 2%N) [] [] [] [] [] [] true 2 1.
+Definition w_app : target := mkT 1 (s "a") false None [] [0%N] [] [] [] [] true 3 1.
+Definition w_subrepo : graph := mkG [w_srlib; w_app; w_sr] [s "a"; s "third_party"] [].
+
+Lemma w_subrepo_direct : direct w_subrepo [s "third_party/sr.patch"] w_sr.
+Proof.
+  split; [right; right; left; reflexivity|]. exists (s "third_party/sr.patch"). split; [left; reflexivity|]. split.
+  - exists (s "sr.patch"). split; [left; reflexivity | left; reflexivity].
+  - split; [reflexivity|]. exists [s "third_party"; s "sr.patch"].
+    split; [discriminate|]. split; [apply Forall_wf_segb; reflexivity|]. split; reflexivity.
+Qed.
+
+Lemma w_subrepo_affected sub base :
+  base 2%N -> affected w_subrepo (depends sub w_subrepo) base 1%N.
+Proof.
+  intros Hb. change 1%N with (t_id w_app). apply (aff_step _ _ _ w_app 0%N).
+  - change 0%N with (t_id w_srlib). apply (aff_step _ _ _ w_srlib 2%N).
+    + apply aff_base. exact Hb.
+    + left. reflexivity.
+    + right. left. split; reflexivity.
+  - right. left. reflexivity.
+  - left. exists 0%N, w_srlib. split; [left; reflexivity|]. split; [reflexivity | left; reflexivity].
+Qed.
+
+Lemma diff_claim_refuted : ~ diff_claim (fun g _ => depends false g).
+Proof.
+  intros H. destruct (H false w_subrepo w_subrepo [s "third_party/sr.patch"] (-1)%Z false) as [rep [Hrep [_ Hcl]]].
+  vm_compute in Hrep. inversion Hrep; subst rep.
+  assert (Hin : In 1%N [2%N]).
+  { apply Hcl; [reflexivity | | reflexivity]. apply w_subrepo_affected.
+    right. exists w_sr. split; [exact w_subrepo_direct | reflexivity]. }
+  destruct Hin as [Hin | []]. discriminate.
+Qed.
+
+Lemma files_claim_refuted_subrepo :
+  ~ (forall g files level incsub, g_subincludes g = [] ->
+       exists rep, changes g files level incsub = Some rep
+                   /\ complete g incsub level (depends true g) (base_files g files) rep).
+Proof.
+  intros H. destruct (H w_subrepo [s "third_party/sr.patch"] (-1)%Z false eq_refl) as [rep [Hrep [_ Hcl]]].
+  vm_compute in Hrep. inversion Hrep; subst rep.
+  assert (Hin : In 1%N [2%N]).
+  { apply Hcl; [reflexivity | | reflexivity]. apply w_subrepo_affected.
+    exists w_sr. split; [exact w_subrepo_direct | reflexivity]. }
+  destruct Hin as [Hin | []]. discriminate.
 Qed.
